@@ -349,3 +349,61 @@ package proxy
 //@   at-call Allowed as ok: assert arg0 == pme
 //@   at-call Data as d: assert arg0 == pme
 //@   at-call WritePacket as fwd: assert [forwards-what-the-subscribers-saw] called(ok) && res(ok) && dyntype(arg1, "plugin.Message") && streq(cast(arg1, *plugin.Message).Channel, packet.Channel) && called(d) && ref(cast(arg1, *plugin.Message).Data) == ref(res(d)) && len(cast(arg1, *plugin.Message).Data) == len(res(d))
+
+// ---- C13: login plugin messages answered once by the matching consumer; completion exactly once ---------------------
+// All bookkeeping lives under l.mu; consumers, the completion callback and connection I/O run outside it.
+//@ guarded_by loginInboundConn.mu : outstandingResponses, isLoginEventFired, onAllMessagesHandled
+
+// A response is delivered to the consumer stored under its id, and the entry is deleted in the SAME critical section
+// as the lookup (two responses carrying one id cannot both find it); unknown ids reach nobody. The body handed over is
+// the response data on success and nil otherwise. Afterwards the completion callback is TAKEN (read and cleared in one
+// critical section) iff nothing is outstanding, and runs outside the lock: it can never run twice.
+//@ func (*loginInboundConn).handleLoginPluginResponse
+//@   props C13
+//@   at-call delete:outstandingResponses as del: assert [entry-removed-in-the-critical-section-of-the-lookup] held(l.mu) == wlocked && arg0 == l.outstandingResponses && arg1 == res.ID && has(l.outstandingResponses, res.ID) && l.outstandingResponses[res.ID] == consumer
+//@   at-call OnMessageResponse as deliver: assert [only-the-registered-consumer-once] held(l.mu) == none && called(del) && arg0 == consumer && (res.Success ==> ref(arg1) == ref(res.Data) && len(arg1) == len(res.Data)) && (!res.Success ==> len(arg1) == 0)
+//@   at-call dyn.onAllMessagesHandled as done: assert [completion-taken-before-it-runs] held(l.mu) == none && called(deliver)
+//@   at-store onAllMessagesHandled: assert [taken-after-the-consumer-ran-and-nothing-is-outstanding] value == nil && held(l.mu) == wlocked && len(l.outstandingResponses) == 0 && called(deliver)
+//@   ensures [unknown-id-reaches-nobody] !called(del) ==> !called(deliver) && !called(done) && err == nil
+//@   ensures [known-id-is-delivered] called(del) ==> called(deliver)
+
+// A new message gets a fresh id, is registered under it, and is either queued (event not fired yet) or written at once
+// (fired) - exactly one of the two, decided inside the critical section that registers it.
+//@ func (*loginInboundConn).SendLoginPluginMessage
+//@   props C13
+//@   at-call Inc as seq
+//@   at-call PushBack as q: assert [queued-before-the-event] held(l.mu) == wlocked && !l.isLoginEventFired && arg1 == msg && msg.ID == int(res(seq)) && l.outstandingResponses[msg.ID] == consumer
+//@   at-call WritePacket as w: assert [written-after-the-event] held(l.mu) == none && !called(q) && ref(arg1) == msg && msg.ID == int(res(seq))
+//@   ensures [queued-or-written-never-both] called(seq) ==> (called(q) != called(w))
+//@   ensures [rejected-requests-register-nothing] !called(seq) ==> result != nil && !called(q) && !called(w)
+
+// The event: marks fired, drains the queue from the front, keeps the callback only if something is outstanding;
+// with nothing queued the callback runs right here (and was not stored, so no response can run it again).
+//@ func (*loginInboundConn).loginEventFired
+//@   props C13
+//@   loop 1: invariant held(l.mu) == wlocked && l.isLoginEventFired
+//@   loop 2: invariant rangeindex >= -1 && rangeindex < len(msgs) && held(l.mu) == none && len(msgs) != 0
+//@   at-call PopFront as pop: assert held(l.mu) == wlocked
+//@   at-store isLoginEventFired: assert value && held(l.mu) == wlocked
+//@   at-store onAllMessagesHandled: assert [kept-only-if-something-is-outstanding] held(l.mu) == wlocked && len(msgs) != 0
+//@   at-call dyn.onAllMessagesHandled as done: assert [runs-here-only-if-nothing-was-queued] held(l.mu) == none && len(msgs) == 0
+//@   at-call BufferPacket as send: assert held(l.mu) == none && len(msgs) != 0
+//@   ensures [nothing-queued-completes-now] len(msgs) == 0 ==> called(done)
+
+//@ func (*loginInboundConn).clearOnAllMessagesHandled
+//@   props C13
+//@   at-store onAllMessagesHandled: assert value == nil && held(l.mu) == wlocked
+//@ func (*loginInboundConn).cleanup
+//@   props C13
+//@   at-store onAllMessagesHandled: assert value == nil && held(l.mu) == wlocked
+//@   at-store outstandingResponses: assert held(l.mu) == wlocked
+
+// The Forge relay consumer answers the backend once per invocation, under the backend's message id, with the client's
+// reply for that message (success iff the client answered with a body).
+//@ func (*forgeRelayConsumer).OnMessageResponse
+//@   props C13
+//@   at-call WritePacket as answer: assert [one-answer-under-the-backend-id] arg0 == c.backendConn && dyntype(arg1, "packet.LoginPluginResponse") && cast(arg1, *packet.LoginPluginResponse).ID == c.backendMsgID && cast(arg1, *packet.LoginPluginResponse).Success == (responseBody != nil) && ref(cast(arg1, *packet.LoginPluginResponse).Data) == ref(responseBody) && len(cast(arg1, *packet.LoginPluginResponse).Data) == len(responseBody)
+//@   ensures [answered] called(answer) && result == res(answer)
+//@ func (*modernForgeLoginRelay).relayToClient
+//@   props C13
+//@   at-call SendLoginPluginMessage as send: assert arg0 == r.clientLogin && dyntype(arg3, "proxy.forgeRelayConsumer") && cast(arg3, *forgeRelayConsumer).backendMsgID == msg.ID && cast(arg3, *forgeRelayConsumer).backendConn == backendConn && cast(arg3, *forgeRelayConsumer).relay == r
